@@ -17,11 +17,12 @@ env = {"PYTHONPATH": f"{wt}/src", "PATH": "/usr/bin:/bin"}
 def demo():
     return subprocess.run(["timeout", "900", "/venv/bin/python", str(wt / "demo_seed.py")], env=env, capture_output=True, text=True, cwd=wt).returncode
 w = demo()
-subprocess.run(["git", "-C", str(wt), "stash", "-q"], check=True)
+# not `git stash`: refs/stash is shared by every worktree of the repository, concurrent adversaries would race on it
+subprocess.run(["git", "-C", str(wt), "apply", "-R", str(d / "patch.diff")], check=True)
 try:
     wo = demo()
 finally:
-    subprocess.run(["git", "-C", str(wt), "stash", "pop", "-q"], check=True)
+    subprocess.run(["git", "-C", str(wt), "apply", str(d / "patch.diff")], check=True)
 b = subprocess.run(["python3", str(root / "tools" / "baseline.py"), str(wt)], capture_output=True, text=True)
 print(f"demo with change: exit {w}; without: exit {wo}; baseline: {b.stdout.strip().splitlines()[-1] if b.stdout.strip() else b.stderr[-300:]} (rc {b.returncode})")
 ok = (w == 1 and wo == 0 and b.returncode == 0)
